@@ -166,6 +166,8 @@ def c13():
         for (c, r) in [(2, 3), (3, 2), (1, 1), (1, 3), (3, 1), (3, 3), (0, 0)]:
             if (c, r) == (0, 0) and which != 0:
                 continue
+            if which == 4 and r < 2:
+                continue  # no valid pair of distinct rows
             q = "quick" if (c, r) in [(2, 3), (3, 2)] else "thorough"
             add("C13", f"c13_{nm}_owned_{c}x{r}", f"c13::inrange({which}, 0, {c}, {r})", 6, q, also=["C01"])
         add("C13", f"c13_{nm}_viewmut_4x4", f"c13::inrange({which}, 1, 4, 4)", 6, "quick", also=["C04"])
